@@ -151,7 +151,7 @@ func TestWorker(t *testing.T) {
 			binary.LittleEndian.PutUint64(b[:], uint64(i))
 			binary.LittleEndian.PutUint64(b[8:], RunSeed(base, id, i))
 			progress.WriteAt(b[:], 0)
-			if out.Runs%2000 == 1999 {
+			if raceLog != "" && out.Runs%2000 == 1999 {
 				flush()
 			}
 		}
